@@ -32,7 +32,7 @@ VARIANTS = ([('sym', 'full'), ('sym', 'empty')] + [('sym', m.name) for m in rig.
 
 def plan(tier):
     return {
-        'level': 'exploration', 'shards': 16, 'budget_s': 80 if tier == 'quick' else 700,
+        'level': 'exploration', 'shards': 16, 'budget_s': 120 if tier == 'quick' else 700,
         'exhaustive': True,
         'rule': 'per (object kind, usage mask) variant: breadth-first closure of the reachable object '
                 'states (state attribute, names, groups, existence), every one of %d operation symbols '
@@ -49,9 +49,9 @@ def plan(tier):
 
 def cases(tier, seed):
     cs = [{'variant': list(v)} for v in VARIANTS]
-    n = 24 if tier == 'quick' else 400
+    n = 64 if tier == 'quick' else 640
     cs += [{'random': i} for i in range(n)]
-    cs += [{'batch': i} for i in range(24 if tier == 'quick' else 400)]
+    cs += [{'batch': i} for i in range(64 if tier == 'quick' else 640)]
     return cs
 
 
